@@ -15,6 +15,7 @@ EXPLANATION = ("Exact-real postconditions (from the statement) for the six GainL
 TRUSTED = ["A-REAL outside the rounding lemma", "decimal module: correctly rounded (<= 1/2 ulp relative error per operation at context precision, no overflow/underflow for the quantifier's magnitudes)",
            "Decimal.quantize = round-half-even at the mask's exponent", "A-ANNOT", "validity of inputs: exchange-supplied crypto_out_with_fee = amount + fee (documented meaning)"]
 ASSUMPTIONS = TRUSTED
+E2E = {"quick": 60, "thorough": 2000, "on_doubt": 400}
 GL = "rp2.gain_loss.GainLoss"
 FIGURES = ["taxable_event_fiat_amount_with_fee_fraction", "fiat_cost_basis", "acquired_lot_fiat_amount_with_fee_fraction", "fiat_gain",
            "taxable_event_fraction_percentage", "acquired_lot_fraction_percentage"]
